@@ -108,6 +108,58 @@ CHECKS = {
              "are selected once per id. In the closed loop, objects matched by no handler must receive no write at all while matching "
              "ones are handled. One documented-behaviour mismatch is recorded in known_findings.json.",
         design_ref='DESIGN.md §6 C15'),
+    'C09': dict(
+        technique="explicit-state history enumeration on the implementation (label toggles, deletions, pauses, exits to depth d) "
+                  "plus deviation-bounded schedule search, under a virtual loop with a wall-clock stall watchdog",
+        text="Daemons with every reaction to stopping (obeys / needs cancellation / ignores both / exits on its own) x cancellation "
+             "backoff x timeout, timers of every configuration (interval, idle, both, neither, initial delay) and daemon+timer pairs "
+             "run in the real closed loop with the real daemon killer and pause toggle; every history to depth 2/3 over {label off/on, "
+             "delete, forced finalizer strip, pause, resume, operator exit} in two spacings, plus a deviation-bounded search. Oracle: no "
+             "overlapping runs per (object, handler); start in the instant the matching object is processed; stop flag before "
+             "cancellation, cancellation not before the backoff; no restart after an own exit; no loop step stalls (watchdog) and no "
+             "operator task fails. Two genuine defects found here were repaired (fix: commits).",
+        design_ref='DESIGN.md §6 C09'),
+    'C10': dict(
+        technique="exhaustive configuration x script enumeration on the implementation in virtual time with exact timer laws as the "
+                  "reference model, plus deviation-bounded schedule search",
+        text="12 timer configurations (interval, sharp, idle, initial_delay) x scripts of two runs over 4 outcomes x 4 durations "
+             "(shorter/equal/longer than the interval) x essential edits at chosen instants (incl. exactly when a run is due) run in "
+             "the real closed loop; every start/end instant must equal the timer laws exactly (dyadic virtual time): no overlap; first "
+             "start = spawn + initial delay; next start = end + interval or the next grid point when sharp, postponed by idling after "
+             "the last essential change the operator saw; error delay/backoff after failures; nothing after a permanent failure. A "
+             "deviation-bounded search on representatives demands the inequality forms.",
+        design_ref='DESIGN.md §6 C10'),
+    'C11': dict(
+        technique="exhaustive policy-product enumeration on the implementation (5 handler carriers) against a reference retry "
+                  "schedule, plus exhaustive crash-point enumeration for persisted handlers",
+        text="errors mode x retries x timeout x backoff x outcome scripts for change handlers, sub-handlers, daemons, timers and "
+             "startup activities: the observed (virtual time, retry) sequence of every handler must equal retry_ref exactly "
+             "(classification, look-ahead limits, delays, permanence, IGNORED mode); for change and sub-handlers additionally a kill "
+             "before/after the server applied each in-flight PATCH followed by a restart, with the statement-level laws (retry numbers "
+             "never skip or go back, gaps >= requested delay, invocations <= retries + crashes). One genuine defect (timers firing "
+             "again after a permanent failure) was repaired.",
+        design_ref='DESIGN.md §6 C11'),
+    'C16': dict(
+        technique="bounded-exhaustive id-pool enumeration and explicit-state search over one object's annotations/status with the "
+                  "real storages, against a dictionary reference model and an independent RFC 7386 merge",
+        text="An id pool built to collide (lengths around the 63-character cut, shared long prefixes, sub-handler paths, field "
+             "suffixes, every character of the alphabet at first/last/cut positions) plus all ids up to length 3/4 over an 8-letter "
+             "alphabet x 7 storage configurations x {plain object, ReplicaSet owned by a Deployment}: store/apply/fetch round trip, "
+             "purge (also store+purge in one patch), validity of every written annotation name, name stability across fresh storage "
+             "objects, user-data isolation, no cross-talk between long ids sharing a prefix; then a state graph to depth 3/4 over "
+             "store/purge/touch/diff-base operations of the operator and of a foreign-prefix operator and user edits against a "
+             "dictionary model. The invalid names for ids with a non-alphanumeric edge character are a recorded known finding.",
+        design_ref='DESIGN.md §6 C16'),
+    'C18': dict(
+        technique="bounded-exhaustive enumeration of webhook declarations x requests x outcome sets x patch programs on the real "
+                  "serve_admission_request, against independent RFC 6902 / RFC 7386 references",
+        text="(A) 48 webhook declarations x 24 requests x id/type hints: exactly the matching handlers run (mutating ones not on DELETE "
+             "unless opted in), allowed iff none raised; outcome sets of 2/3 handlers: message/code of the most specific error, "
+             "warnings in order. (B) permutations of up to 2/3 of 21 patch statements (set, overwrite, delete present/absent, nested "
+             "under absent/mapping/scalar parents, type changes, keys with / ~ . and unicode, transformation functions) x 3 reviewed "
+             "objects: applying the returned JSON patch with an independent RFC 6902 implementation must equal transformations(RFC 7386 "
+             "merge(object, requested)) up to empty mappings. One genuine defect (mapping over scalar crashed the request) was repaired.",
+        design_ref='DESIGN.md §6 C18'),
 }
 
 
